@@ -351,6 +351,16 @@ def r04_4(facts, res):
             if bad:
                 res.add(Finding("R04-4", key, "%s writes %s between hard-coded quotes (%r): a value containing that quote is printed as text the "
                                 "parser rejects; use escape()" % (f["path"], bad, tmpl), f["file"], n.get("ln"), {}))
+    # a delimiter handled as a character value (`let quote = if .. { '\'' } else { '"' }; write!(f, "{}={}", name, quote)`) is a
+    # second place that decides the quote: nothing ties the text it was decided on to the text that is written between the quotes
+    for ty, m, f in printers(facts):
+        qs = [n for n in walk(f["body"]) if n.get("k") == "Lit" and n.get("t") == "char" and n.get("v") in (34, 39, '"', "'")]
+        if qs:
+            st["instances"] += 1
+            res.oblige(1, False)
+            res.add(Finding("R04-4", "%s::%s|quote-char" % (ty, m), "%s picks the delimiter itself (character literal %s) instead of handing the text "
+                            "it prints to escape(): the delimiter is decided on one string and wrapped around another (expanded value vs "
+                            "literal pieces)" % (f["path"], sorted({chr(n["v"]) if isinstance(n["v"], int) else n["v"] for n in qs})), f["file"], qs[0].get("ln") or f["line"], {}))
     if st["instances"] < 3:
         raise BrokenCheck("R04-4: %d quoted templates in printers (floor 3)" % st["instances"])
 
@@ -871,6 +881,40 @@ def r04_14(facts, res, rule="R04-14"):
         raise BrokenCheck("%s: %d printers scanned (floor 20)" % (rule, st["printers"]))
 
 
+def r04_15(facts, res, rule="R04-15"):
+    """[82] NotationDecl ::= '<!NOTATION' S Name S (ExternalID | PublicID) S? '>': a notation may have a public identifier and no
+    system identifier.  The printer reaches the public identifier without requiring a system identifier (it is not nested in
+    the branch that has just found one)."""
+    st = res.rule(rule, instances=0)
+
+    def mentions(x, field):
+        return any(m.get("k") == "Field" and m.get("name") == field for m in walk(x))
+    for f in facts.fns.values():
+        if f["crate"] != "xml_info" or "body" not in f or f.get("impl_self") != "XmlNotation" or \
+                not (" as std::fmt::Display>::fmt" in f["path"] or "IndentedDisplay>::indented" in f["path"]):
+            continue
+        if not mentions(f["body"], "public_identifier"):
+            continue
+        st["instances"] += 1
+        under = set()
+        for n in walk(f["body"]):
+            scrut = n.get("cond") if n.get("k") == "If" else (n.get("scrut") if n.get("k") == "Match" else None)
+            if scrut is not None and mentions(scrut, "system_identifier") and not mentions(scrut, "public_identifier"):
+                branches = [n.get("then")] if n.get("k") == "If" else [a["body"] for a in n["arms"] if "Some" in str(a.get("pat"))]
+                for b in branches:
+                    for m in walk(b):
+                        if m.get("k") == "Field" and m.get("name") == "public_identifier":
+                            under.add(id(m))
+        free = [m for m in walk(f["body"]) if m.get("k") == "Field" and m.get("name") == "public_identifier" and id(m) not in under]
+        res.oblige(1, bool(free))
+        if not free:
+            res.add(Finding(rule, f["path"].split("::", 1)[1], "%s prints the public identifier only inside the branch that found a system identifier: "
+                            "<!NOTATION n PUBLIC 'p'> (PublicID, production [83]) is printed as <!NOTATION n>, which the parser rejects"
+                            % f["path"], f["file"], f["line"], {}))
+    if st["instances"] < 1:
+        raise BrokenCheck("%s: no printer of XmlNotation mentions public_identifier (floor 1)" % rule)
+
+
 def r04_13(facts, res, rule="R04-13"):
     """The standalone document declaration is printed whenever the document has one, with the value it has: Some(false) is
     `standalone="no"`, not nothing (the re-parsed document has no declaration, which is a different [document] property)."""
@@ -951,6 +995,7 @@ def run(facts, tier):
     r04_12(facts, res)
     r04_13(facts, res)
     r04_14(facts, res)
+    r04_15(facts, res)
     # ---- R04-3
     st3 = res.rule("R04-3", instances=0)
     for ty in ITEM_TYPES:
